@@ -45,6 +45,11 @@ def compare(vec, got, out):
             if len(res) != 1 or res[0] not in pv["adm"]:
                 bad.append(f"percentile({p})[{flavour}] = {res}, specified one of {pv['adm']}")
                 continue
+            if pv["pm"] % 10 == 0 and res != pv["floor"]:
+                # whole percentages: n*p/100 is computed exactly in f64, so the rank convention floor(n*p/100)
+                # (clamped to the last element) is prescribed exactly
+                bad.append(f"percentile({p})[{flavour}] = {res} on n={len(vec['input'])} values, specified rank floor(n*p/100) -> {pv['floor']}")
+                continue
             if prev is not None and res[0] < prev:
                 bad.append(f"percentile not monotone in p at p={p}: {res[0]} < {prev}")
             prev = res[0]
@@ -59,7 +64,7 @@ def run(pid, tier, seed, replay=None):
                 "per sequence); a case is one (sequence) vector carrying the prescribed results of all aggregators and "
                 "percentile arguments; non-trivial = non-empty input with at least two distinct values")
     out.assumptions = ["values fit i64/i32; mean compared with relative tolerance 1e-9 against the exact rational",
-                       "percentile judged by: element of input, rank within one position of n*p/100, exact at p=0 and p=100, monotone in p"]
+                       "percentile judged by: element of input, rank floor(n*p/100) (clamped) exactly for whole percentages, within one position of n*p/100 for fractional p (f64 rounding), exact at p=0 and p=100, monotone in p"]
     try:
         bindir = cargo_build_or_die(["agg-replay"])
     except BuildFailed as e:
